@@ -13,6 +13,7 @@ LYRICS = ['la', 'Ky-', '-ri-', '-e', 'lo-', 'A-men', 'do', 're', 'mi', "l'a", 'Ã
 DYNAMS = ['p', 'f', 'ff', 'pp', 'mf', 'mp', 'sfz', 'cresc.', 'dim.', '<', '>', '(', ')', '[', ']', 'fp']
 HARMS = ['C7', 'Dm', 'G7/B', 'I', 'V7', 'ii6', 'IV', 'vi', 'Am7', 'Bdim']
 FINGS = ['1', '2', '3', '4', '5', '1 2', '2 3', '5 1']
+COMMON_FREE = ['I', 'V7', 'IV', '1', '2', '5', 'p', 'f', 'la', 'do']
 FREE = {'**text': LYRICS, '**dynam': DYNAMS, '**dyn': DYNAMS, '**harm': HARMS, '**mxhm': HARMS, '**fing': FINGS}
 
 CLEFS = ['*clefG2', '*clefF4', '*clefC3', '*clefC4', '*clefGv2', '*clefC1', '*clefF3', '*clefC2']
@@ -64,15 +65,19 @@ def _data_cell(rng, htype, spine, p_null=0.15, chords=True, rest_in_chord=0.03):
         else:
             t, a = tokens.gen_note(rng)
         return Cell(t, a['kind'], spine, htype, a)
-    return Cell(rng.choice(FREE.get(htype, LYRICS)), 'free', spine, htype)
+    # a third of the free cells come from a vocabulary shared by all non-kern types (a lyric "I" and a chord "I", a
+    # verse "1" and a finger "1"): the same text must become a token of the type of the spine it stands in
+    vocab = COMMON_FREE if rng.random() < 0.33 else FREE.get(htype, LYRICS)
+    return Cell(rng.choice(vocab), 'free', spine, htype)
 
 
 def gen_doc(rng, *, kern_only=False, max_spines=4, splits=True, core=False, comments=True, measures=None,
             mid_signatures=True, opening_barline=None, final_barline=None, chords=True, free_headers=False,
-            hidden_barlines=False, force_clef=False, plain_acc=False, rest_in_chord=0.03, clef_in_split=0.0, nested=0.5):
+            hidden_barlines=False, force_clef=False, plain_acc=False, rest_in_chord=0.03, clef_in_split=0.0, nested=0.5, early_end=0.0, types=None):
     """core=True: signatures only before the first measure, splits re-joined before the next barline (C08's core)"""
     g = GenDoc()
     tokens.PLAIN_ACC = plain_acc
+    types_forced = types
     n = rng.randint(1, max_spines)
     types = ['**kern'] + [rng.choice(SPINE_TYPES) for _ in range(n - 1)]
     if kern_only:
@@ -80,6 +85,9 @@ def gen_doc(rng, *, kern_only=False, max_spines=4, splits=True, core=False, comm
     rng.shuffle(types)
     if free_headers and rng.random() < 0.3:
         types[rng.randrange(n)] = rng.choice(['**silbe', '**foo', '**recip'])
+    if types_forced is not None:
+        types = list(types_forced)
+        n = len(types)
     g.headers = types
     g.nl = rng.choice(['\n', '\n', '\n', '\r\n'])
     g.final_nl = rng.random() < 0.85
@@ -213,6 +221,16 @@ def gen_doc(rng, *, kern_only=False, max_spines=4, splits=True, core=False, comm
             if join_points() and r < 0.45:
                 join_split()
                 continue
+            if early_end and started and len(paths) >= 2 and not join_points() and rng.random() < early_end:
+                # one spine ends before the others: its terminator stands alone on a row, later rows are narrower
+                cands = [i for i, (sp, ht) in enumerate(paths) if sum(1 for q in paths if q[1] == '**kern' and q is not paths[i]) >= 1]
+                if cands:
+                    k = rng.choice(cands)
+                    g.lines.append(('row', [Cell('*-' if i == k else '*', 'spineop' if i == k else 'interp', sp, ht)
+                                            for i, (sp, ht) in enumerate(paths)]))
+                    paths = paths[:k] + paths[k + 1:]
+                    g.flags.add('early-end')
+                    continue
             row(lambda i, sp, ht: _data_cell(rng, ht, sp, chords=chords, rest_in_chord=rest_in_chord))
             started = True
         while join_points() and (core or rng.random() < 0.7):
